@@ -16,8 +16,11 @@ What acceptance by the integrity-checked parser (`ReadTx`, `ReadTxHeader`, `Read
     finding);
   * an alteration that also rewrites the trailing Alh consistently is accepted by
     single-record reads (`consistent_rewrite_accepted`, documented limit K2);
-  * the read path can panic (`fetchVLog_unchecked_id_panics`, `txmd_extra_overrun_panics`,
-    `txmd_extra_too_long_panics`, findings).
+  * the read path never panics (`parse_never_panics`, `value_read_never_panics`); the former panic
+    witnesses are rejected inputs (`fetchVLog_bad_id_rejected`, `txmd_extra_overrun_rejected`,
+    `txmd_extra_too_long_rejected`) since the repairs of `fetchVLog` and
+    `extraAttribute.deserialize`; a stored `vLen` above `MaxValueLen` is rejected before any
+    allocation (`value_len_bounded`).
 -/
 import ImmuModel.Tx.RecordProofs
 import ImmuModel.Tx.RecordLayout
@@ -102,6 +105,8 @@ theorem value_authentic_partial (hs : Hs D) (cfg : VCfg) (vlogs : List Bytes) (t
   simp only [hne, if_false] at h
   split at h
   · cases h
+  split at h
+  · cases h
   · split at h
     · cases h
     · split at h
@@ -161,38 +166,66 @@ theorem consistent_rewrite_accepted (hs : HsD D) (lim : Limits) (r r' : Record D
   obtain ⟨a, _, rfl⟩ := hr
   rfl
 
-/-- **Finding (F6).** With `MaxIOConcurrency > 1` a value offset whose vlog id (top byte of the
-uncovered `vOff`) is outside `1..MaxIOConcurrency` makes `fetchVLog` dereference a nil map
-entry: the read panics instead of returning an error. -/
-theorem fetchVLog_unchecked_id_panics (hs : Hs D) (cfg : VCfg) (vlogs : List Bytes) (txLog : Bytes)
-    (e : Entry D) (hne : e.vLen ≠ 0) (hemb : cfg.embedded = false) (hio : cfg.maxIO ≠ 1)
-    (hid : vlogs.length < e.vOff / 2 ^ 56 % 256) :
-    readValue hs cfg vlogs txLog e = .error .panic := by
-  have hid0 : e.vOff / 2 ^ 56 % 256 ≠ 0 := by omega
-  have hnone : vlogs[e.vOff / 2 ^ 56 % 256 - 1]? = none := by
-    apply List.getElem?_eq_none; omega
-  simp [readValue, fetchVLog, hne, hemb, hio, hid0, hnone]
+/-- **The integrity-checked parser never panics.** Whatever the bytes are (flipped bits, a
+truncated log, the following records), `ReadTx` / `ReadTxHeader` / `ExportTx` / `TxReader` /
+the indexer / `Open` get a record or an error from the tx parser. -/
+theorem parse_never_panics (hs : HsD D) (lim : Limits) (bs : Bytes) : parseTx hs lim bs ≠ .error .panic :=
+  parseTx_noPanic_thm hs lim bs
 
-/-- **Finding (tx-metadata parser).** A version-1 header whose tx metadata declares an
-`extra` attribute longer than the metadata bytes present makes `TxMetadata.ReadFrom` slice
-out of range: every read of that transaction panics.  Concrete witness: 3 metadata bytes
-`01 00 05`. -/
-theorem txmd_extra_overrun_panics (hs : HsD D) (lim : Limits) (blRoot prevAlh : D) (rest : Bytes) :
+/-- **Value reads never panic** on an opened store (non-embedded stores hold
+`MaxIOConcurrency ≥ 1` value logs), whatever `vLen` / `vOff` say. -/
+theorem value_read_never_panics (hs : Hs D) (cfg : VCfg) (vlogs : List Bytes) (txLog : Bytes) (e : Entry D)
+    (hlogs : cfg.embedded = false → 0 < vlogs.length) :
+    readValue hs cfg vlogs txLog e ≠ .error .panic :=
+  readValue_noPanic_thm hs cfg vlogs txLog e hlogs
+
+/-- The former finding F6a: with `MaxIOConcurrency > 1` a value offset whose vlog id (top byte of
+the uncovered `vOff`) is outside `1..MaxIOConcurrency` made `fetchVLog` dereference a nil map
+entry; the id is now validated and the read returns `ErrUnexpectedError`. -/
+theorem fetchVLog_bad_id_rejected (hs : Hs D) (cfg : VCfg) (vlogs : List Bytes) (txLog : Bytes)
+    (e : Entry D) (hne : e.vLen ≠ 0) (hlen : e.vLen ≤ cfg.maxValueLen) (hemb : cfg.embedded = false)
+    (hio : cfg.maxIO ≠ 1) (hid : vlogs.length < e.vOff / 2 ^ 56 % 256) :
+    readValue hs cfg vlogs txLog e = .error .unexpected := by
+  have hid0 : e.vOff / 2 ^ 56 % 256 ≠ 0 := by omega
+  have hl : ¬ (e.vLen > cfg.maxValueLen) := by omega
+  simp [readValue, fetchVLog, hne, hl, hemb, hio, hid0, hid]
+
+/-- The former finding F6b (`make([]byte, vLen)` with the stored, uncovered `vLen`): a length
+above `MaxValueLen` is rejected before anything is allocated or read, so a returned value — and
+the buffer allocated for it — never exceeds `MaxValueLen`. -/
+theorem value_len_bounded (hs : Hs D) (cfg : VCfg) (vlogs : List Bytes) (txLog : Bytes) (e : Entry D) :
+    (e.vLen > cfg.maxValueLen → readValue hs cfg vlogs txLog e = .error .corruptedData) ∧
+    (∀ v, readValue hs cfg vlogs txLog e = .ok v → v.length ≤ cfg.maxValueLen) := by
+  constructor
+  · intro h
+    have h0 : e.vLen ≠ 0 := by omega
+    simp [readValue, h0, h]
+  · intro v hv
+    by_cases h0 : e.vLen = 0
+    · simp [readValue, h0] at hv; subst hv; simp
+    · have hl := (value_authentic_partial hs cfg vlogs txLog e v h0 hv).2
+      by_cases hgt : e.vLen > cfg.maxValueLen
+      · simp [readValue, h0, hgt] at hv
+      · omega
+
+/-- The former finding (tx-metadata parser): a version-1 header whose tx metadata declares an
+`extra` attribute longer than the metadata bytes present made `TxMetadata.ReadFrom` slice out
+of range; it is rejected with `ErrCorruptedData`.  Concrete input: 3 metadata bytes `01 00 05`. -/
+theorem txmd_extra_overrun_rejected (hs : HsD D) (lim : Limits) (blRoot prevAlh : D) (rest : Bytes) :
     parseTx hs lim
       (beN 8 1 ++ (beN 8 0 ++ (beN 8 0 ++ (hs.enc blRoot ++ (hs.enc prevAlh ++ (beN 2 1 ++
-       (beN 2 3 ++ ([1, 0, 5] ++ rest)))))))) = .error .panic :=
+       (beN 2 3 ++ ([1, 0, 5] ++ rest)))))))) = .error .corruptedData :=
   txmd_overrun_thm hs lim blRoot prevAlh rest
 
-/-- **Finding (tx-metadata serialiser).** `TxMetadata.ReadFrom` accepts an `extra` attribute
-longer than `maxExtraLen` (anything that fits into `maxTxMetadataLen`), but
-`extraAttribute.serialize` slices a `[2+256]byte` array to `2+len`: when the header's Alh is
-computed (`Alh()` → `innerHash` → `Metadata.Bytes()`), Go panics.  Witness: 260 metadata bytes
-`01 01 01 ‖ x` with `|x| = 257`, zero entries. -/
-theorem txmd_extra_too_long_panics (hs : HsD D) (lim : Limits) (a b c : D) (x rest : Bytes)
+/-- The former finding (tx-metadata serialiser): `TxMetadata.ReadFrom` accepted an `extra`
+attribute longer than `maxExtraLen` (anything that fits into `maxTxMetadataLen`), on which
+`extraAttribute.serialize` panicked when the header's Alh was computed; it is rejected with
+`ErrCorruptedData`.  Concrete input: 260 metadata bytes `01 01 01 ‖ x` with `|x| = 257`. -/
+theorem txmd_extra_too_long_rejected (hs : HsD D) (lim : Limits) (a b c : D) (x rest : Bytes)
     (hx : x.length = 257) :
     parseTx hs lim
       (beN 8 1 ++ (beN 8 0 ++ (beN 8 0 ++ (hs.enc a ++ (hs.enc b ++ (beN 2 1 ++
-       (beN 2 260 ++ ((1 :: 1 :: 1 :: x) ++ (beN 4 0 ++ (hs.enc c ++ rest)))))))))) = .error .panic :=
+       (beN 2 260 ++ ((1 :: 1 :: 1 :: x) ++ (beN 4 0 ++ (hs.enc c ++ rest)))))))))) = .error .corruptedData :=
   txmd_too_long_thm hs lim a b c x rest hx
 
 /-- **Sequential scans chain the records.** A successful ascending `TxReader` scan returns
@@ -270,16 +303,20 @@ example : ∃ r' bs', reseal constHsD r0.hdr [e1] = some r' ∧ serializeTx cons
   simp [r0, e0, e1]
 
 /-- `value_authentic_partial` / `value_flip_detected`: successful non-empty value reads exist. -/
-example : readValue constHsD.toHs ⟨false, 1⟩ [[9, 8, 7, 6]] [] ⟨[], [107], 3, 2 ^ 56 + 1, z⟩ = .ok [8, 7, 6] := by
+example : readValue constHsD.toHs ⟨false, 1, 16⟩ [[9, 8, 7, 6]] [] ⟨[], [107], 3, 2 ^ 56 + 1, z⟩ = .ok [8, 7, 6] := by
   rfl
 
 /-- `value_vlen_zero_unchecked`: the same entry with `vLen := 0` is served as the empty value. -/
-example : readValue constHsD.toHs ⟨false, 1⟩ [[9, 8, 7, 6]] [] ⟨[], [107], 0, 2 ^ 56 + 1, z⟩ = .ok [] :=
+example : readValue constHsD.toHs ⟨false, 1, 16⟩ [[9, 8, 7, 6]] [] ⟨[], [107], 0, 2 ^ 56 + 1, z⟩ = .ok [] :=
   value_vlen_zero_unchecked _ _ _ _ _ rfl
 
-/-- `fetchVLog_unchecked_id_panics`: three value logs, vlog id 4 in the offset. -/
-example : readValue constHsD.toHs ⟨false, 3⟩ [[1], [2], [3]] [] ⟨[], [107], 1, 4 * 2 ^ 56, z⟩ = .error .panic :=
-  fetchVLog_unchecked_id_panics _ _ _ _ _ (by decide) rfl (by decide) (by decide)
+/-- `fetchVLog_bad_id_rejected`: three value logs, vlog id 4 in the offset. -/
+example : readValue constHsD.toHs ⟨false, 3, 16⟩ [[1], [2], [3]] [] ⟨[], [107], 1, 4 * 2 ^ 56, z⟩ = .error .unexpected :=
+  fetchVLog_bad_id_rejected _ _ _ _ _ (by decide) (by decide) rfl (by decide) (by decide)
+
+/-- `value_len_bounded`: a stored length above `MaxValueLen`. -/
+example : readValue constHsD.toHs ⟨false, 1, 2⟩ [[9, 8, 7, 6]] [] ⟨[], [107], 3, 2 ^ 56 + 1, z⟩ = .error .corruptedData := by
+  rfl
 
 /-- `scan_chain` / `scan_binds_partial`: successful scans exist. -/
 example : ∃ ss rs, scanAsc constHsD lim0 none ss = .ok (rs : List (Record Digest)) ∧ rs ≠ [] := by
